@@ -41,7 +41,10 @@ package channel
 //@ ignore func (s *Service) newRetrieve() Retrieve
 //@ ignore func (r Retrieve) Where() Retrieve
 //@ ignore func (r Retrieve) Entries() Retrieve
-//@ ignore func (r Retrieve) Exec() error
+//@ # a multi-entry, name-filtered gorp query reports an empty result as success, never as ErrNotFound (gorp Retrieve.Exec doc)
+//@ trusted func (r Retrieve) Exec(ctx context.Context, tx gorp.Tx) (err error)
+//@   ensures !__is(err, query.ErrNotFound)
+//@   modifies nothing
 //@ ignore func MatchNames() gorp.Filter
 
 //@ func (s *Service) retrieveExistingAndAssignKeys(ctx context.Context, tx gorp.Tx, channels *[]Channel, counter *counter, retrieveIfNameExists bool) (toCreate []Channel, err error)
